@@ -4,11 +4,11 @@ PROP = dict(
     bin="c04",
     run_targets=["Run/RunC04.vo"],
     prop_targets=["Properties/C04.vo"],
-    cases=dict(quick=1500, thorough=9000),
+    cases=dict(quick=1300, thorough=9000),
     level="proof",
     harness_timeout=2400,
     coqc_timeout=1500,
-    rule="same generator as C03 biased towards clustered / one-outlier / duplicate point sets, iter_count 1..6; "
+    rule="same generator as C03 (incl. the large structured inputs with n >= 8192 and the huge-magnitude families) biased towards clustered / one-outlier / duplicate point sets, iter_count 1..6; "
          "distinct = distinct (algorithm, dimension, iter_count, tolerance bits, points, weights, partition length); "
          "non-trivial = well-formed, at least 3 points and iter_count >= 1",
     class_names={0: "Ok", 1: "error", 2: "panic", 3: "hang"},
@@ -22,7 +22,8 @@ PROP = dict(
         "modelled, not verified: i64 overflow of weight sums (contract), f64 weights (run with integer values only)",
     ],
     assumptions=[
-        "coordinates are finite f64 whose binary32 image is finite; weights are non-negative integers whose sum is below 2^53",
+        "coordinates are finite f64 whose binary32 image is finite (beyond the binary32 range the code at HEAD keeps every point of the axis "
+        "on one side: no balance claim there, only `returns a bisection tree, no hang/panic`); weights are non-negative integers whose sum is below 2^53",
         "box_ok32 (the root box, f64 min/max then `as f32`, encloses the binary32 coordinates) is a decidable premise evaluated on every "
         "in-contract case by Run/RunC04.v (a false would count as a correspondence failure)",
     ],
